@@ -326,6 +326,7 @@ func c19GraphTie(c *Ctx, plain, compiled *syntax.Ast, g syntax.CallGraphNode) (v
 }
 
 var c19GraphReported = 0
+var c19GraphSeen = 0
 
 // c19GraphTieCase runs the tie on one program and records the outcome.
 func c19GraphTieCase(c *Ctx, cs *c19Case, plain *syntax.Ast, base *c19Compiled) {
@@ -338,7 +339,11 @@ func c19GraphTieCase(c *Ctx, cs *c19Case, plain *syntax.Ast, base *c19Compiled) 
 	case verdict == "":
 		r.hist("graph-tie:equal")
 		r.count("graph\x00"+cs.Src, len(real) > 1)
-		c19GraphTheorems(c, cs, plain, base)
+		c19GraphSeen++
+		// thorough tier: the graph tie on every program, the theorem instances and real edits on every third
+		if !c.Thorough || c19GraphSeen%3 == 0 {
+			c19GraphTheorems(c, cs, plain, base)
+		}
 	case strings.HasPrefix(verdict, "skip:"):
 		r.hist("graph-tie:" + c19FirstLine(verdict))
 	default:
